@@ -7,10 +7,11 @@ the binding environment and the file system; the only engine state that survives
 template cache written by `ParseTemplateAndCache`. The history machine below makes "other renders
 happened in between" explicit and shows they cannot matter.
 
-What the pure model cannot express is *aliasing* of Go reference values (a filter sorting the
-caller's slice in place). That part of the property is carried by the `immut` stream, which deep-
-snapshots every binding environment around every render on the real code, and by the C15
-theorems (`filters_pure`): here the statement is `_partial` in exactly that sense.
+What this (value) model cannot express is *aliasing* of Go reference values (a filter sorting the
+caller's slice in place). For slices that part of the property is proved on the slice-memory model of
+`Liquid/Heap.lean` in `Proofs/C15Heap.lean` (`array_filters_do_not_write_inputs`, `pipeline_no_write`), tied by
+the `alias` stream; for maps, structs and pointers it is carried by the `immut` stream, which deep-snapshots
+every binding environment around every render on the real code.
 -/
 
 /-- operations on one shared engine -/
